@@ -20,7 +20,7 @@ ASSUMPTIONS = ["bounds as listed in evidence.coverage.bounds", "literal (sequenc
 
 def bounds(tier):
     q = tier == "quick"
-    return {"partition": f"values 0..5, 1..{5 if q else 6} items, 1..5 bins; all partitioners, cg 4 switch sets x 3 objectives, dp x 3 objectives; ilp on values 0..3, 1..4 items, 1..3 bins",
+    return {"partition": f"values 0..5, 1..{5 if q else 6} items, 1..5 bins; all partitioners (cbldm also with cardinality bounds 1 and 2), cg 4 switch sets x 3 objectives, dp x 3 objectives; ilp on values 0..3, 1..4 items, 1..3 bins",
             "partition-wide": f"all multisets of 7 items over 1..{6 if q else 10}, k=3..5, ckk/snp/rnp/cg: full output vs Sums and Partition",
             "big": "partition values {0,1,2**24+1,2**31+1,2**32+3,2**40+5} 1..4(5) items k=1..3; packing B=2**32 sequences of 1..3(4) over {1,2**31-1,2**31,2**31+1,2**32-1,2**32}; covering B=2**32 with letters next to B/3, B/2",
             "packing": f"all sequences of 1..{4 if q else 5} items over 0..6 (B=6), 5 packers; multisets of 1..{7 if q else 8} items over 1..10 (B=20 and B=10) for bc/ffd/bfd",
@@ -120,6 +120,8 @@ def _part_cfgs(n, k, scope):
             kw = {"objective": o}; kw.update(sw); cfgs.append(("cg", kw))
     if k ** n <= 1100:
         cfgs += [("dp", {"objective": o}) for o in scopes.CG_OBJECTIVES]
+    if k == 2:       # the balanced partitioner under a cardinality bound (zero-valued items count as items)
+        cfgs += [("cbldm", {"partition_difference": d}) for d in (1, 2)]
     return cfgs
 
 
